@@ -17,7 +17,7 @@ from vlib import log
 from props import c02
 
 LEVEL = "model_checking"
-EVS = c02.API_EVS | {"call", "heal", "panic", "hang", "summary"}
+EVS = c02.API_EVS | {"call", "heal", "panic", "hang", "summary", "reload"}
 
 
 def api_runs(events):
